@@ -34,7 +34,7 @@ register("C13",
          "TLA+ model (Merge.tla) + TLC state-graph dump replayed into the implementation (spec->code), TLC trace validation of "
          "recorded histories (code->spec)", "DESIGN.md §4 C13")
 
-register("C12",
+register("C12 One MSM object per trajectory serves all lags and both window modes in alternating order, so results may not depend on earlier requests.",
          "Msm.tla models the window generator as a loop (one action per generator step) with a loop invariant tying the "
          "accumulated counts to the declarative lag-tau count definition; TLC checks it and the result properties (rows, "
          "unit interval, detailed balance, reversal invariance) on ALL trajectories up to length 5 (quick) / 6 (model) over 3 "
@@ -70,7 +70,7 @@ register("C19",
          "TLA+ life-cycle model checked by TLC + TLC trace validation of every implementation call (code->spec)",
          "DESIGN.md §4 C19")
 
-register("C18",
+register("C18 In addition ALL short histories on fresh objects (divisions without a look in between, get_nodes / get_half_of_hypercube with small N or all, in every position) are executed and validated; the edge set is reported as an advisory only (mechanism, not statement).",
          "Polytope.tla models subdivision operationally as the code performs it (a node at the midpoint of every edge with "
          "coinciding midpoints identified, edges replaced by halves, extra edges only between nodes of the newest level; "
          "order of the two sub-steps per polytope) over exact integer / Z[phi] lattice coordinates, and TLC shows that it "
@@ -86,7 +86,7 @@ register("C18",
          "re-using the model's action (code->spec)",
          "DESIGN.md §4 C18")
 
-register("C20",
+register("C20 One EnergyReader object is used through a history (table and column taken, the returned column shifted and the frame sorted in place, table loaded again).",
          "Xvg.tla is a line-oriented operational model of EnergyReader (legend scan for s0..s9 up to the first non-header "
          "line, skiprows=13, '@' as comment character) next to the declarative meaning of an xvg file; TLC checks over all "
          "header layouts ('#' 0..14, '@' 0..14, legends at any '@' positions, 0..2 rows) that they coincide inside the "
@@ -166,7 +166,7 @@ register("C16",
          "TLA+ rational model checked by TLC + TLC trace validation of the parser on rendered strings",
          "DESIGN.md §4 C16")
 
-register("C05",
+register("C05 The direction atoms (cell areas, shared arcs, angles) and the direction adjacency are taken from the brute-force S^2 oracle, not from the grid's own getters.",
          "Shells.tla states C05 declaratively on integer radii (units 0.05 A, boundaries = midpoints) with every output entry a "
          "pair (rational coefficient, direction atom) and models the construction of the position matrices operationally "
          "(off-diagonals at +-n_o from between_radii[:-1] / increments[1:]+[last], per-shell scaling of the unit-sphere block); "
@@ -181,7 +181,7 @@ register("C05",
          "TLA+ operational-vs-declarative model checked by TLC + TLC evaluator (spec->code) compared entry by entry",
          "DESIGN.md §4 C05")
 
-register("C02",
+register("C02 The family that carries the factor is STATE of the trace spec: every grid must use the same family (a grid with one rotation cannot silently drop the factor). The same grid is also evaluated in both position modes and with two factors in one process, and the volumes are asked twice.",
          "Product.tla models the block assembly of FullGrid._get_N_N operationally (truthy position entries repeated per "
          "rotation at stride n_b, rotation block on the diagonal, sum) against the declarative Cartesian product, and TLC "
          "checks equality, symmetry, empty diagonal and pattern = product of patterns for all pairs of weighted graphs on "
@@ -196,7 +196,7 @@ register("C02",
          "TLA+ block-assembly model checked by TLC + TLC trace validation of real matrices as value classes",
          "DESIGN.md §4 C02")
 
-register("C14",
+register("C14 Two rate matrices are built from the SAME loaded matrices (as in a temperature scan), the reference S/h is copied before the package's code sees the data, and a third solver setting uses a shift INSIDE the spectrum that is no eigenvalue (compared with the dense eigenvalues nearest to the shift).",
          "Two models: Sqra.tla shows on the exact lattice that a symmetric S/h makes V_i base^(-2k_i) (Boltzmann x volume) "
          "stationary and in detailed balance, and that one asymmetric entry (the shape of the fold defect) breaks it; "
          "Molgri.tla models the pipeline over the artefact store (one directory per grid identifier; BuildGrid, Write, Read, "
@@ -213,7 +213,7 @@ register("C14",
          "TLA+ pipeline + SqRA models checked by TLC; TLC trace validation of the end-to-end pipeline re-using the model's actions",
          "DESIGN.md §4 C14, §5")
 
-register("C10",
+register("C10 Rows with irrational quaternions (0.1 degree rotation scans, a real FullGrid array) are compared with the spec's rotation formula evaluated in floating point; that transliteration is itself checked against TLC's integers on every rational row.",
          "Rigid.tla models the pseudotrajectory as a state machine over the one mutable moving molecule (per grid row: reset to "
          "the reference geometry, rotate about the centre of mass by the integer rotation matrix of the scalar-last "
          "quaternion, translate, emit) in pure integer arithmetic and TLC checks that every emitted frame is R(q_k) ref + p_k, "
@@ -228,7 +228,7 @@ register("C10",
          "TLA+ integer model of the frame loop checked by TLC + TLC evaluator (spec->code) compared atom by atom",
          "DESIGN.md §4 C10")
 
-register("C11",
+register("C11 Some systems are placed away from the origin (molecule 1 not at (0,0,0)), a third of the placements lie within 12 % of the outer shell boundary, non-equidistant radial grids are run without outliers, and the package's own pseudotrajectory of a whole grid must be assigned back to 0..n-1.",
          "Assign.tla states the assignment as three arg-min decisions over distance tables with a uniqueness margin, the index "
          "composition (t*n_o+o)*n_b+b and the outlier rule; TLC checks on all integer radial grids from a pool and all "
          "distances that 'nearest radius' and 'shell whose midpoint boundaries contain the distance' coincide. The driver "
@@ -242,7 +242,7 @@ register("C11",
          "TLA+ decision model checked by TLC + TLC trace validation of the assignment tool on generated placements",
          "DESIGN.md §4 C11")
 
-register("C07",
+register("C07 Zero grids requested with N != 1 must still be the single identity / z row.",
          "Two parts. (1) The exact lattice statement: Polytope.tla/TLC decide on integer coordinates that the nodes of every "
          "level are pairwise distinct, closed under negation and that the canonical half holds exactly one of each "
          "antipodal pair (C18 binds this to the code); the `Rows` events then show that each polytope grid is the first N "
@@ -257,7 +257,7 @@ register("C07",
          "TLA+ lattice model checked by TLC (shared with C18) + TLC trace validation of static grid facts and prefix relation",
          "DESIGN.md §4 C07")
 
-register("C08",
+register("C08 The volume getter is exercised with both values of its `approx` argument.",
          "GridLife.tla models grid objects, the process-global random generator (abstracted to <last seed, draws since>) and "
          "getters, with the library's re-seed discipline inside each call; TLC shows for all interleavings of 2 live objects "
          "x getters x user re-seeding/drawing x dropping that the value of Create(alg,N) and of every getter is a function "
@@ -274,7 +274,7 @@ register("C08",
          "their recorded events validated by a trace spec (code->spec)",
          "DESIGN.md §4 C08")
 
-register("C15",
+register("C15 Three grids are read through the FullGrid that owns them after it computed its 6D volumes twice and after a caller normalised a returned array in place.",
          "The structural clauses of C15 are decided by TLC on every logged `Volumes` event: N < 4 returns exactly the equal "
          "share pi^2/N (4 pi/N for directions); for N >= 4 there are N positive values, bitwise the first N of the 2N "
          "double-cover volumes, summing to pi^2 within 12 %; each value lies within 30 % of the measure of the set of "
@@ -287,7 +287,7 @@ register("C15",
          "TLC trace validation of volume events against an independent Monte-Carlo oracle; TLA+ life-cycle model",
          "DESIGN.md §4 C15, §7")
 
-register("C06",
+register("C06 The extended point set (one extra shell at the last radius plus the last increment) is built by the harness from the radii and directions and must coincide with the implementation's.",
          "Mechanism: Polygon.tla is an exact operational model of order_points + get_polygon_area on convex lattice polygons "
          "(centroid, reference normal, signed-angle keys compared exactly through cross-multiplied integers, stable sort, "
          "fan triangulation); TLC checks it against the shoelace area for ALL 2 694 (quick) / ~30 000 (thorough) strictly "
